@@ -158,11 +158,17 @@ def run(ctx, R, tier):
     if len(hd) != 2:
         raise AnalysisError("_housekeeping: expected two expiry deletes, found %d" % len(hd))
     for st in hd:
+        periods = set()
+        for n in walk_no_nested(hk.node):
+            if isinstance(n, ast.Assign) and isinstance(n.targets[0], ast.Name) and isinstance(n.value, ast.BinOp) and isinstance(n.value.op, ast.Sub) and \
+                    isinstance(n.value.left, ast.Call) and dotted(n.value.left.func) == "time.time":
+                periods.add(n.targets[0].id)
+
         def expiry(cfgname):
             def pred(atom, pol):
                 return pol is True and isinstance(atom, ast.Compare) and any("config.%s" % cfgname == unparse(x) for x in ast.walk(atom)) and \
                     any(isinstance(o, (ast.Lt, ast.Gt, ast.LtE, ast.GtE)) for o in atom.ops) and \
-                    any(isinstance(x, ast.Name) for x in ast.walk(atom))
+                    any(isinstance(x, ast.Name) and x.id in periods for x in ast.walk(atom))
             return pred
         which = None
         for nm in ("ITER_STREAM_LIFETIME", "ITER_STREAM_LINGER"):
